@@ -47,7 +47,32 @@ func NewTypeInfo() *TypeInfo {
 }
 
 // TagOf returns a positive integer identifying the dynamic type t.
+func canonType(t types.Type) types.Type {
+	t = types.Unalias(t)
+	if b, ok := t.(*types.Basic); ok {
+		switch b.Kind() {
+		case types.Byte:
+			return types.Typ[types.Uint8]
+		case types.Rune:
+			return types.Typ[types.Int32]
+		}
+		return types.Typ[b.Kind()]
+	}
+	if p, ok := t.(*types.Pointer); ok {
+		if e := canonType(p.Elem()); e != p.Elem() {
+			return types.NewPointer(e)
+		}
+	}
+	if s, ok := t.(*types.Slice); ok {
+		if e := canonType(s.Elem()); e != s.Elem() {
+			return types.NewSlice(e)
+		}
+	}
+	return t
+}
+
 func (ti *TypeInfo) TagOf(t types.Type) int {
+	t = canonType(t)
 	k := types.TypeString(t, nil)
 	if i, ok := ti.typeIdx[k]; ok {
 		return i
